@@ -7,7 +7,7 @@ import cfgs as C
 import fields as F
 import hist as H
 import props.cfgprops as P
-from core import Result, stable
+from core import Result, stable, guard
 
 RULE = ("(a) the C01 history stream with invalid and wrongly-typed arguments up-weighted: before every operation the whole state is "
         "snapshotted (values at all depths, default marks, dynamic fields, identity of every nested configuration); when a covered "
@@ -268,10 +268,10 @@ def doc_stream(ctx, res, n):
 def run(ctx, n_quick=200, n_thorough=6000):
     res = Result()
     P.run_stream(ctx, res, "C06", ctx.n(n_quick, n_thorough), oracle, gen_ops=gen_ops)
-    proxy_stream(ctx, res, ctx.n(60, 2000))
-    container_validator_stream(ctx, res, ctx.n(40, 1500))
-    moved_item_stream(ctx, res, ctx.n(60, 2000))
-    doc_stream(ctx, res, ctx.n(3, 60))
+    guard(res, "C06", proxy_stream, ctx, res, ctx.n(60, 2000))
+    guard(res, "C06", container_validator_stream, ctx, res, ctx.n(40, 1500))
+    guard(res, "C06", moved_item_stream, ctx, res, ctx.n(60, 2000))
+    guard(res, "C06", doc_stream, ctx, res, ctx.n(3, 60))
     return res
 
 
